@@ -308,12 +308,24 @@ def _stub_child(name, kindobj):
     return o
 
 
-def _node_stub(cls, children, kinds):
+def _node_stub(cls, children, kinds, operator=None):
     kw = {ch: _stub_child(ch, k.obj) for ch, k in zip(children, kinds)}
+    if operator is not None:
+        kw['operator'] = operator
     return Obj(cls.name, cls=cls, flag_default=False, **kw)
 
 
-def wire_rows(dom, cls, info, pairs):
+def operators_of(ix, cls):
+    """the operator strings ExprNodes.binop_node_classes maps to this class (BoolBinopNode: 'and', 'or'); [None] for a class that is not in the table"""
+    m = cls.module
+    t = m.bindings.get('binop_node_classes')
+    ops = []
+    if isinstance(t, ast.Dict):
+        ops = [k.value for k, v in zip(t.keys, t.values) if isinstance(k, ast.Constant) and isinstance(v, ast.Name) and v.id == cls.name]
+    return sorted(ops) or [None]
+
+
+def wire_rows(dom, cls, info, pairs, operators=(None,)):
     """-> (children, [(site, seq, res, problems)], [notes]) for the infer_type() method and every spanning store of the class"""
     children = sorted(set(info['children']) | {a for fn, st in info['stores'] for s in [st] + _safe_slice(fn, st) for a in _child_refs(s.value) if a in info['subexprs']})
     rows, notes = [], []
@@ -332,8 +344,8 @@ def wire_rows(dom, cls, info, pairs):
         except Unsupported as e:
             notes.append('%s.%s not decided: %s' % (cls.name, site, e))
             continue
-        for a, b in pairs:
-            selfobj = _node_stub(cls, children, (a, b))
+        for a, b, op in [(a, b, op) for op in operators for a, b in pairs]:
+            selfobj = _node_stub(cls, children, (a, b), op)
             ev = dom.evaluator()
             try:
                 if st is None:
@@ -349,7 +361,7 @@ def wire_rows(dom, cls, info, pairs):
             except Unsupported as e:
                 notes.append('%s.%s not decided: %s' % (cls.name, site, e))
                 break
-            rows.append((site, (a, b), res, problems(dom, (a, b), res)))
+            rows.append((site if op is None else '%s[%s]' % (site, op), (a, b), res, problems(dom, (a, b), res)))
     return children, rows, notes
 
 
@@ -367,7 +379,7 @@ _PC_WIRE = ("class CondExprNode(ExprNode):\n"
             "        return PyrexTypes.independent_spanning_type(t, t)\n")
 
 
-def rule_SELWIRE(ctx, floor=1000):
+def rule_SELWIRE(ctx, floor=1500):
     r = Rule('C40-SELWIRE', 'an expression node whose value is one of two operands (conditional expression, and / or) computes its type - in infer_type() and where it stores '
                             'self.type - from the types of BOTH operands with a function that keeps a bool a bool, a Python int a Python object and never narrows '
                             '(the methods are evaluated on stub operands of every pair of pure-Python value kinds)', floor)
@@ -386,7 +398,7 @@ def rule_SELWIRE(ctx, floor=1000):
             for x in ((seq[0], seq[1]), (seq[1], seq[0])):
                 base.setdefault(('pair', tuple(k.label for k in x)), set()).update(c for c, _ in probs)
     for cls, info in sorted(classes.items(), key=lambda kv: kv[0].name):
-        children, rows, notes = wire_rows(dom, cls, info, pairs)
+        children, rows, notes = wire_rows(dom, cls, info, pairs, operators_of(ix, cls))
         for n in notes:
             r.info(n)
         if info['infer'] is None or not info['stores']:
@@ -397,7 +409,7 @@ def rule_SELWIRE(ctx, floor=1000):
                    nontrivial=seq[0] is not seq[1])
             sites.setdefault(site, []).append(('pair', seq, res, probs))
         for site, srows in sites.items():
-            fn = info['infer'] if site == 'infer_type' else [f for f, st in info['stores'] if site.startswith(f.name + ':')][0]
+            fn = info['infer'] if site.startswith('infer_type') else [f for f, st in info['stores'] if site.startswith(f.name + ':')][0]
             _report(r, srows, '%s.%s (operands %s)' % (cls.name, site, ' / '.join(children)), cls.module.rel, fn.lineno, '%s.%s' % (cls.name, site), base=base)
     # control: a conditional expression that looks at one operand only
     pcc = ast.parse(_PC_WIRE).body[0]
